@@ -3,6 +3,7 @@ package c17
 import (
 	"bytes"
 	"context"
+	"io/ioutil"
 	"os"
 	"os/exec"
 	"time"
@@ -21,6 +22,11 @@ func runCLI(bin, dir string, args ...string) cliResult {
 	cmd := exec.CommandContext(ctx, bin, args...)
 	cmd.Dir = dir
 	cmd.Env = os.Environ()
+	// coca leaves a profile*/ directory in $TMPDIR per invocation: give it a directory that is removed afterwards
+	if tmp, err := ioutil.TempDir("", "vfcli-"); err == nil {
+		cmd.Env = append(cmd.Env, "TMPDIR="+tmp)
+		defer os.RemoveAll(tmp)
+	}
 	var so, se bytes.Buffer
 	cmd.Stdout = &so
 	cmd.Stderr = &se
